@@ -352,7 +352,10 @@ def sweep_shared(tier, n_quick, n_thorough, reps_quick, reps_thorough, extra_par
         for rep in range(reps):
             pr = dict(extra_params or {})
             pr["delay"] = 1000 * (rep + 1) + c if rep else 0
-            jobs.append(dict(engine="rel" if rep % 2 == 0 else "chk", lo=0, hi=n, shard=(n + 1) // 2, cpus=c, params=pr))
+            # a different shard split per repetition: the same case then follows a different history
+            # inside its process (first-call caches, thread-local buffers)
+            parts = 2 + rep
+            jobs.append(dict(engine="rel" if rep % 2 == 0 else "chk", lo=0, hi=n, shard=-(-n // parts), cpus=c, params=pr))
     return jobs, n
 
 
